@@ -1,4 +1,5 @@
 import CsVerif.Model.C14
+import CsVerif.Model.C14R
 /-! Line-protocol driver for the C14 model.
 
 `hist <copies T|F> <flags: pubkeyOk trial protoHttp hasDomains as 4 chars T|F> <cfg token, ignored> <n> <setting>*n <op>*`
@@ -137,23 +138,29 @@ def flagsTok (s : String) : Option (Bool × Bool × Bool × Bool) :=
   | [some a, some b, some c, some d] => some (a, b, c, d)
   | _ => none
 
-/-- A configuration with a setting whose pretty function raises `exc` (stream `raising`; a rule stated here, outside the
-heap model and its theorems): the rendered views (`settings`, `settings_by_index`, `settings_map(pretty=True)`) and
-everything constructed from them (decoders, client set-up, profile generation) raise that exception on EVERY use, the
-raw views are mappings as ever.  One token per op: `M` (a mapping) or `E:<exc>`. -/
-def raisingRule (exc : String) (op : String) : Option String :=
+/-- Stream `raising`: a configuration with a setting whose pretty function raises `exc`; the uses are run through
+`Model/C14R.lean` (`C14R.outs` from the initial state).  One token per op: `M` (a mapping) or `E:<exc>`. -/
+def raisingUse (op : String) : Option C14R.Use :=
   match op.splitOn ":" with
-  | ["va", i] => if i == "0" || i == "1" then some ("E:" ++ exc) else if i == "2" || i == "3" then some "M" else none
-  | ["sm", _, p, _] => if p == "T" then some ("E:" ++ exc) else if p == "F" then some "M" else none
-  | ["c2", k] => if k == "0" || k == "1" then some ("E:" ++ exc) else none
-  | ["pf"] => some ("E:" ++ exc)
-  | ["cl", "T"] => some ("E:" ++ exc)
+  | ["va", "0"] => some (.view .settings)
+  | ["va", "1"] => some (.view .settingsByIndex)
+  | ["va", "2"] => some (.view .rawSettings)
+  | ["va", "3"] => some (.view .rawSettingsByIndex)
+  | ["sm", _, "T", _] => some (.smap true)
+  | ["sm", _, "F", _] => some (.smap false)
+  | ["c2", k] => if k == "0" || k == "1" then some .c2http else none
+  | ["pf"] => some .profile
+  | ["cl", "T"] => some .client
   | _ => none
+
+def showROut (exc : String) : C14R.Out → String
+  | .mapping => "M"
+  | .raises => "E:" ++ exc
 
 def step' : List String → String
   | "rais" :: exc :: _ :: _cfg :: _n :: ops =>
-    match ops.mapM (raisingRule exc) with
-    | some outs => " ".intercalate (outs ++ ["O:ok"])
+    match ops.mapM raisingUse with
+    | some us => " ".intercalate ((C14R.outs C14R.State.init us).map (showROut exc) ++ ["O:ok"])
     | none => "bad-op"
   | "hist" :: cp :: fl :: _cfg :: n :: rest =>
     match boolTok cp, flagsTok fl, n.toNat? with
